@@ -760,3 +760,438 @@ Proof.
 Qed.
 
 End Close.
+
+(* ---- from the boolean input check to the invariant ------------------------------------------ *)
+
+Lemma nodup_keys_NoDup l : nodup_keys l = true <-> NoDup l.
+Proof.
+  induction l as [|k l IH]; simpl.
+  - split; [intros _; constructor | reflexivity].
+  - rewrite andb_true_iff, negb_true_iff, IH.
+    assert (He : existsb (fun k' => N.eqb (fst k) (fst k') && Nat.eqb (snd k) (snd k')) l = true <-> In k l).
+    { rewrite existsb_exists. split.
+      - intros (k' & Hin & Hk). apply andb_true_iff in Hk. destruct Hk as [H1 H2].
+        apply N.eqb_eq in H1. apply Nat.eqb_eq in H2. destruct k, k'. simpl in *. subst. exact Hin.
+      - intros Hin. exists k. split; [exact Hin|]. rewrite N.eqb_refl, Nat.eqb_refl. reflexivity. }
+    split.
+    + intros [Hn Hl]. constructor; [|exact Hl]. intros Hin. apply He in Hin. congruence.
+    + intros H. inversion H as [|? ? Hn Hl]; subst. split; [|exact Hl].
+      destruct (existsb _ l) eqn:E; [|reflexivity]. exfalso. apply Hn. apply He. reflexivity.
+Qed.
+
+Lemma items_ok_spec g s : items_ok g s = true <->
+  NoDup (keys_of s) /\
+  forall p d la, In (p, d, la) s ->
+    is_prod g p /\ d <= length (rhs g p) /\ forall a, In a la -> (a < ntoks g)%N.
+Proof.
+  unfold items_ok. rewrite andb_true_iff, nodup_keys_NoDup, forallb_forall. split.
+  - intros [Hnd H]. split; [exact Hnd|]. intros p d la Hin. specialize (H _ Hin).
+    unfold it_p, it_d, it_la in H. simpl in H.
+    apply andb_true_iff in H. destruct H as [H H3]. apply andb_true_iff in H. destruct H as [H1 H2].
+    split; [apply is_prodb_spec; exact H1|]. split; [apply Nat.leb_le; exact H2|].
+    rewrite forallb_forall in H3. intros a Ha. apply N.ltb_lt. apply H3. exact Ha.
+  - intros [Hnd H]. split; [exact Hnd|]. intros [[p d] la] Hin. destruct (H _ _ _ Hin) as (H1 & H2 & H3).
+    unfold it_p, it_d, it_la. simpl. rewrite (proj2 (is_prodb_spec g p) H1), (proj2 (Nat.leb_le _ _) H2). simpl.
+    apply forallb_forall. intros a Ha. apply N.ltb_lt. apply H3. exact Ha.
+Qed.
+
+Lemma init_inv g nl fs keys K : close_pre g nl fs keys K ->
+  Inv g nl fs K keys (repeat false (length (prods g))) K.
+Proof.
+  intros (Hwf & Hnl & Hfs & Hok & Hcov). apply items_ok_spec in Hok. destruct Hok as [Hnd Hrg].
+  constructor.
+  - exact Hnd.
+  - intros p d la H. apply Hrg. apply lookup_In. exact H.
+  - intros p d la H. apply lookup_In in H. split; [exact (c0_base g K p d la H)|].
+    intros a Ha. exact (c1_base g K p d la a H Ha).
+  - apply le_is_refl.
+  - intros p d Hin. apply Hcov in Hin. intros Hn. apply lookup_None_iff in Hn. exact (Hn Hin).
+  - apply repeat_length.
+  - intros q Hq. unfold bit in Hq. rewrite nth_repeat_false in Hq. discriminate Hq.
+  - intros p d la H. left. apply Hcov. apply lookup_In in H.
+    change (p, d) with (fst (p, d, la)). apply in_map. exact H.
+Qed.
+
+(* the three possible outcomes of the mirror on well-formed inputs *)
+Lemma close_mirror_cases g nl fs keys K fuel : close_pre g nl fs keys K ->
+  (close_mirror g nl fs keys K fuel = OutOfFuel /\ fuel < close_fuel g keys) \/
+  (exists C zt, close_mirror g nl fs keys K fuel = Done C /\
+     Inv g nl fs K [] zt C /\ first_set zt = None).
+Proof.
+  intros Hpre. pose proof (init_inv g nl fs keys K Hpre) as I.
+  destruct Hpre as (Hwf & Hnl & Hfs & _ & _).
+  destruct (loop_spec g nl fs Hwf Hnl Hfs K fuel keys _ K I) as [[Ho Hlt] | Hd].
+  - left. split; [exact Ho|]. rewrite nbits_repeat_false in Hlt. unfold close_fuel, mu_bound in *. lia.
+  - right. exact Hd.
+Qed.
+
+Lemma final_closed g nl fs K zt C : Inv g nl fs K [] zt C -> first_set zt = None ->
+  forall p d la, lookup p d C = Some la -> satisfied g nl fs C p d la.
+Proof.
+  intros I Hz p d la H. destruct (inv_work _ _ _ _ _ _ _ I _ _ _ H) as [[] | [[_ Hb] | Hs]]; [|exact Hs].
+  unfold bit in Hb. rewrite (first_set_None zt Hz) in Hb. discriminate Hb.
+Qed.
+
+(* ---- theorems 1-4 -------------------------------------------------------------------------------- *)
+
+Lemma close_mirror_done g nl fs keys K fuel C : close_pre g nl fs keys K ->
+  close_mirror g nl fs keys K fuel = Done C ->
+  exists zt, Inv g nl fs K [] zt C /\ first_set zt = None.
+Proof.
+  intros Hpre H. destruct (close_mirror_cases g nl fs keys K fuel Hpre) as [[Ho _] | (C' & zt & Hd & I & Hz)].
+  - rewrite Ho in H. discriminate H.
+  - rewrite Hd in H. injection H as H. subst C'. exists zt. split; assumption.
+Qed.
+
+Lemma close_mirror_sound : close_mirror_sound_stmt.
+Proof.
+  intros g nl fs keys K fuel C Hpre H p d la Hin.
+  destruct (close_mirror_done g nl fs keys K fuel C Hpre H) as (zt & I & _).
+  apply (inv_sound _ _ _ _ _ _ _ I). apply In_lookup; [exact (inv_nodup _ _ _ _ _ _ _ I) | exact Hin].
+Qed.
+
+Lemma close_mirror_complete : close_mirror_complete_stmt.
+Proof.
+  intros g nl fs keys K fuel C Hpre H.
+  destruct (close_mirror_done g nl fs keys K fuel C Hpre H) as (zt & I & Hz).
+  pose proof (final_closed g nl fs K zt C I Hz) as Hcl.
+  destruct Hpre as (Hwf & Hnl & Hfs & Hok & _). apply items_ok_spec in Hok. destruct Hok as [HndK _].
+  assert (H0 : forall p d, lr0_closure_rel g K p d -> exists la, lookup p d C = Some la).
+  { intros p d Hr. induction Hr as [p d la Hin | p d r q Hpar IH Hnth Hq Hlq].
+    - destruct (inv_grow _ _ _ _ _ _ _ I p d la (In_lookup _ _ _ _ HndK Hin)) as (la' & Hl & _).
+      exists la'. exact Hl.
+    - destruct IH as (la & Hl). destruct (Hcl _ _ _ Hl r Hnth q Hq Hlq) as (la' & Hl' & _).
+      exists la'. exact Hl'. }
+  assert (H1 : forall p d a, lr1_closure_rel g K p d a -> exists la, lookup p d C = Some la /\ In a la).
+  { intros p d a Hr. induction Hr as [p d la a Hin Ha | p d r q b Hpar Hnth Hq Hlq Hf | p d a r q Hpar IH Hnth Hq Hlq Hn].
+    - destruct (inv_grow _ _ _ _ _ _ _ I p d la (In_lookup _ _ _ _ HndK Hin)) as (la' & Hl & Hi).
+      exists la'. split; [exact Hl | apply Hi; exact Ha].
+    - destruct (H0 _ _ Hpar) as (la & Hl). destruct (Hcl _ _ _ Hl r Hnth q Hq Hlq) as (la' & Hl' & Hfi & _).
+      exists la'. split; [exact Hl'|]. apply Hfi. apply (first_seq_exact g nl fs _ b Hnl Hfs). exact Hf.
+    - destruct IH as (la & Hl & Ha). destruct (Hcl _ _ _ Hl r Hnth q Hq Hlq) as (la' & Hl' & _ & Hni).
+      exists la'. split; [exact Hl'|]. apply Hni; [|exact Ha].
+      apply (nullable_seq_exact g nl _ Hnl). exact Hn. }
+  split.
+  - intros p d Hr. destruct (H0 p d Hr) as (la & Hl). exists la. apply lookup_In. exact Hl.
+  - intros p d a Hr. destruct (H1 p d a Hr) as (la & Hl & Ha). exists la. split; [apply lookup_In; exact Hl | exact Ha].
+Qed.
+
+Lemma close_mirror_result_ok : close_mirror_result_ok_stmt.
+Proof.
+  intros g nl fs keys K fuel C Hpre H.
+  destruct (close_mirror_done g nl fs keys K fuel C Hpre H) as (zt & I & _).
+  apply items_ok_spec. split; [exact (inv_nodup _ _ _ _ _ _ _ I)|].
+  intros p d la Hin. apply (inv_range _ _ _ _ _ _ _ I).
+  apply In_lookup; [exact (inv_nodup _ _ _ _ _ _ _ I) | exact Hin].
+Qed.
+
+Lemma close_mirror_terminates : close_mirror_terminates_stmt.
+Proof.
+  intros g nl fs keys K fuel Hpre Hfuel.
+  destruct (close_mirror_cases g nl fs keys K fuel Hpre) as [[_ Hlt] | (C & zt & Hd & _)]; [lia|].
+  exists C. exact Hd.
+Qed.
+
+Lemma close_mirror_never_panics : close_mirror_never_panics_stmt.
+Proof.
+  intros g nl fs keys K fuel Hpre H.
+  destruct (close_mirror_cases g nl fs keys K fuel Hpre) as [[Ho _] | (C & zt & Hd & _)];
+    rewrite H in *; discriminate.
+Qed.
+
+Lemma close_mirror_order_insensitive : close_mirror_order_insensitive_stmt.
+Proof.
+  intros g nl fs K keys1 keys2 fuel1 fuel2 C1 C2 Hp1 Hp2 H1 H2.
+  pose proof (close_mirror_sound g nl fs keys1 K fuel1 C1 Hp1 H1) as S1.
+  pose proof (close_mirror_sound g nl fs keys2 K fuel2 C2 Hp2 H2) as S2.
+  destruct (close_mirror_complete g nl fs keys1 K fuel1 C1 Hp1 H1) as [A1 B1].
+  destruct (close_mirror_complete g nl fs keys2 K fuel2 C2 Hp2 H2) as [A2 B2].
+  split.
+  - intros p d. split; intros (la & Hin).
+    + apply A2. exact (proj1 (S1 _ _ _ Hin)).
+    + apply A1. exact (proj1 (S2 _ _ _ Hin)).
+  - intros p d a. split; intros (la & Hin & Ha).
+    + apply B2. exact (proj2 (S1 _ _ _ Hin) a Ha).
+    + apply B1. exact (proj2 (S2 _ _ _ Hin) a Ha).
+Qed.
+
+(* ---- goto ---------------------------------------------------------------------------------------- *)
+
+Lemma add_fresh p d c s : lookup p d s = None -> fst (add p d c s) = s ++ [((p, d, c) : item)].
+Proof.
+  induction s as [|i s IH]; intros H; [reflexivity|].
+  rewrite add_cons. rewrite lookup_cons in H.
+  destruct (keq (it_p i) (it_d i) p d); [discriminate H|]. simpl. rewrite (IH H). reflexivity.
+Qed.
+
+Lemma goto_loop_spec g x : forall l acc,
+  NoDup (keys_of l) -> NoDup (keys_of acc) ->
+  (forall p d la, In (p, d, la) l -> is_prod g p /\ d <= length (rhs g p)) ->
+  (forall p d la, In (p, d, la) l -> lookup p (S d) acc = None) ->
+  exists G, goto_loop g x l acc = Done G /\ NoDup (keys_of G) /\
+    forall p d' la, In (p, d', la) G <->
+      In (p, d', la) acc \/
+      exists d, d' = S d /\ In (p, d, la) l /\ nth_error (rhs g p) d = Some x.
+Proof.
+  induction l as [|[[p0 d0] la0] l IH]; intros acc Hndl Hnda Hrg Hfresh.
+  - exists acc. split; [reflexivity|]. split; [exact Hnda|]. intros p d' la. split.
+    + intros H. left. exact H.
+    + intros [H | (d & _ & [] & _)]. exact H.
+  - simpl in Hndl. inversion Hndl as [|? ? Hk0 Hndl']; subst.
+    destruct (Hrg p0 d0 la0 (or_introl eq_refl)) as [Hp0 Hd0].
+    assert (Hrg' : forall p d la, In (p, d, la) l -> is_prod g p /\ d <= length (rhs g p)).
+    { intros p d la Hin. apply (Hrg p d la). right. exact Hin. }
+    (* the branches that leave acc unchanged *)
+    assert (Hskip : nth_error (rhs g p0) d0 <> Some x ->
+      exists G, goto_loop g x l acc = Done G /\ NoDup (keys_of G) /\
+        forall p d' la, In (p, d', la) G <->
+          In (p, d', la) acc \/
+          exists d, d' = S d /\ In (p, d, la) ((p0, d0, la0) :: l) /\ nth_error (rhs g p) d = Some x).
+    { intros Hne.
+      destruct (IH acc Hndl' Hnda Hrg' (fun p d la Hin => Hfresh p d la (or_intror Hin))) as (G & HG & HndG & HinG).
+      exists G. split; [exact HG|]. split; [exact HndG|]. intros p d' la. rewrite HinG. split.
+      - intros [H | (d & Hd & Hin & Hn)]; [left; exact H|]. right. exists d. split; [exact Hd|].
+        split; [right; exact Hin | exact Hn].
+      - intros [H | (d & Hd & [He | Hin] & Hn)]; [left; exact H| |].
+        + injection He as ? ? ?. subst p d la. exfalso. exact (Hne Hn).
+        + right. exists d. split; [exact Hd|]. split; [exact Hin | exact Hn]. }
+    cbn [goto_loop]. unfold it_p, it_d, it_la. cbn [fst snd].
+    rewrite (proj2 (is_prodb_spec g p0) Hp0). cbn [negb].
+    destruct (Nat.eqb d0 (length (rhs g p0))) eqn:Ed.
+    { apply Nat.eqb_eq in Ed. apply Hskip. intros Hn.
+      assert (Hnone : nth_error (rhs g p0) d0 = None) by (apply nth_error_None; lia). congruence. }
+    apply Nat.eqb_neq in Ed.
+    destruct (nth_error (rhs g p0) d0) as [y|] eqn:Ey; [|apply nth_error_None in Ey; lia].
+    destruct (sym_eqb x y) eqn:Exy.
+    + apply sym_eqb_eq in Exy. subst y.
+      pose proof (Hfresh p0 d0 la0 (or_introl eq_refl)) as Hf0.
+      set (acc' := fst (add p0 (S d0) la0 acc)).
+      destruct (IH acc' Hndl') as (G & HG & HndG & HinG).
+      * apply add_nodup. exact Hnda.
+      * exact Hrg'.
+      * intros p d la Hin. unfold acc'. rewrite add_lookup. destruct (keq p0 (S d0) p (S d)) eqn:E.
+        -- apply keq_true in E. destruct E as [E1 E2]. injection E2 as E2. subst p d.
+           exfalso. apply Hk0. change (p0, d0) with (fst (p0, d0, la)). apply in_map. exact Hin.
+        -- apply (Hfresh p d la). right. exact Hin.
+      * exists G. split; [exact HG|]. split; [exact HndG|]. intros p d' la. rewrite HinG.
+        unfold acc'. rewrite (add_fresh _ _ _ _ Hf0), in_app_iff. split.
+        -- intros [[H | [H | []]] | (d & Hd & Hin & Hn)].
+           ++ left. exact H.
+           ++ injection H as ? ? ?. subst p d' la. right. exists d0. split; [reflexivity|].
+              split; [left; reflexivity | exact Ey].
+           ++ right. exists d. split; [exact Hd|]. split; [right; exact Hin | exact Hn].
+        -- intros [H | (d & Hd & [He | Hin] & Hn)].
+           ++ left. left. exact H.
+           ++ injection He as ? ? ?. subst p d la d'. left. right. left. reflexivity.
+           ++ right. exists d. split; [exact Hd|]. split; [exact Hin | exact Hn].
+    + apply Hskip. intros Hn. injection Hn as Hn. subst y.
+      assert (Ht : sym_eqb x x = true) by (apply sym_eqb_eq; reflexivity). congruence.
+Qed.
+
+Lemma goto_mirror_spec : goto_mirror_spec_stmt.
+Proof.
+  intros g S x Hok. apply items_ok_spec in Hok. destruct Hok as [Hnd Hrg].
+  destruct (goto_loop_spec g x S [] Hnd (NoDup_nil _)) as (G & HG & HndG & HinG).
+  - intros p d la Hin. destruct (Hrg p d la Hin) as (H1 & H2 & _). split; assumption.
+  - intros p d la _. reflexivity.
+  - exists G. split; [exact HG|]. split; [exact HndG|]. intros p d' la. rewrite HinG. split.
+    + intros [[] | H]. exact H.
+    + intros H. right. exact H.
+Qed.
+
+(* ---- the textbook single-lookahead closure --------------------------------------------------------- *)
+
+Lemma first_of_form_split : first_of_form_split_stmt.
+Proof.
+  intros g beta a b. unfold first_of_form. split.
+  - intros (c & Hd). apply derives_split in Hd. destruct Hd as (c1 & c2 & Hc & H1 & H2).
+    apply derives_T1_inv in H2. subst c2. destruct c1 as [|y c1].
+    + simpl in Hc. injection Hc as Hb Hc. subst. right. split; [exact H1 | reflexivity].
+    + simpl in Hc. injection Hc as Hy Hc. subst y. left. exists c1. exact H1.
+  - intros [(c & Hd) | [Hd Hb]].
+    + exists (c ++ [T a]). exact (derives_ctx_r g beta (T b :: c) [T a] Hd).
+    + subst b. exists []. exact (derives_ctx_r g beta [] [T a] Hd).
+Qed.
+
+Lemma lr1_lr0 g K p d a : lr1_closure_rel g K p d a -> lr0_closure_rel g K p d.
+Proof.
+  intros H. induction H as [p d la a Hin Ha | p d r q b Hpar Hnth Hq Hlq Hf | p d a r q Hpar IH Hnth Hq Hlq Hn].
+  - exact (c0_base g K p d la Hin).
+  - exact (c0_step g K p d r q Hpar Hnth Hq Hlq).
+  - exact (c0_step g K p d r q IH Hnth Hq Hlq).
+Qed.
+
+Lemma lr1_textbook_incl : lr1_textbook_incl_stmt.
+Proof.
+  intros g K p d a H. induction H as [p d la a Hin Ha | p d a r q b Hpar IH Hnth Hq Hlq Hf].
+  - exact (c1_base g K p d la a Hin Ha).
+  - apply first_of_form_split in Hf. destruct Hf as [Hf | [Hn Hb]].
+    + exact (c1_first g K p d r q b (lr1_lr0 g K p d a IH) Hnth Hq Hlq Hf).
+    + subst b. exact (c1_null g K p d a r q IH Hnth Hq Hlq Hn).
+Qed.
+
+Lemma productive_seq g l : productive g -> forallb (sym_in_range g) l = true ->
+  exists w, derives g l (tokens_of w).
+Proof.
+  intros Hp. induction l as [|x l IH]; intros Hr.
+  - exists []. apply d_refl.
+  - simpl in Hr. apply andb_true_iff in Hr. destruct Hr as [Hx Hl]. destruct (IH Hl) as (w & Hw).
+    destruct x as [t | r].
+    + exists (t :: w). simpl. apply derives_cons. exact Hw.
+    + simpl in Hx. apply N.ltb_lt in Hx. destruct (Hp r Hx) as (w1 & Hw1).
+      exists (w1 ++ w). rewrite tokens_of_app. exact (derives_app g [R r] _ l _ Hw1 Hw).
+Qed.
+
+Lemma first_of_form_nonempty g beta a : productive g -> forallb (sym_in_range g) beta = true ->
+  exists b, first_of_form g beta a b.
+Proof.
+  intros Hp Hr. destruct (productive_seq g beta Hp Hr) as (w & Hw).
+  pose proof (derives_ctx_r g beta (tokens_of w) [T a] Hw) as Hd.
+  destruct w as [|b w].
+  - exists a, []. exact Hd.
+  - exists b, (tokens_of w ++ [T a]). exact Hd.
+Qed.
+
+Lemma nth_error_rhs_is_prod g p d x : nth_error (rhs g p) d = Some x -> is_prod g p.
+Proof.
+  unfold rhs, prod, is_prod. destruct (nth_error (prods g) (N.to_nat p)) as [[l r]|] eqn:E.
+  - intros _. apply nth_error_Some. congruence.
+  - intros H. destruct d; discriminate H.
+Qed.
+
+Lemma lr1_textbook_agrees : lr1_textbook_agrees_stmt.
+Proof.
+  intros g K Hwf Hprod HK.
+  assert (Hnext : forall p d a r q, lr1_textbook_rel g K p d a -> nth_error (rhs g p) d = Some (R r) ->
+            is_prod g q -> lhs g q = r -> exists b, lr1_textbook_rel g K q 0 b).
+  { intros p d a r q Ht Hnth Hq Hlq.
+    pose proof (nth_error_rhs_is_prod g p d _ Hnth) as Hp.
+    destruct (first_of_form_nonempty g (skipn (S d) (rhs g p)) a Hprod) as (b & Hb).
+    - apply forallb_forall. intros x Hx. apply (wf_rhs_range g p x Hwf Hp). exact (In_skipn _ _ _ Hx).
+    - exists b. exact (tb_step g K p d a r q b Ht Hnth Hq Hlq Hb). }
+  assert (H0 : forall p d, lr0_closure_rel g K p d -> exists a, lr1_textbook_rel g K p d a).
+  { intros p d H. induction H as [p d la Hin | p d r q Hpar IH Hnth Hq Hlq].
+    - destruct la as [|a la]; [exfalso; exact (HK p d [] Hin eq_refl)|].
+      exists a. exact (tb_base g K p d (a :: la) a Hin (or_introl eq_refl)).
+    - destruct IH as (a & Ha). exact (Hnext p d a r q Ha Hnth Hq Hlq). }
+  intros p d a. split; [|apply lr1_textbook_incl].
+  intros H. induction H as [p d la a Hin Ha | p d r q b Hpar Hnth Hq Hlq Hf | p d a r q Hpar IH Hnth Hq Hlq Hn].
+  - exact (tb_base g K p d la a Hin Ha).
+  - destruct (H0 p d Hpar) as (a & Ha).
+    apply (tb_step g K p d a r q b Ha Hnth Hq Hlq). apply first_of_form_split. left. exact Hf.
+  - apply (tb_step g K p d a r q a IH Hnth Hq Hlq). apply first_of_form_split. right. split; [exact Hn | reflexivity].
+Qed.
+
+(* ---- statement 1 with the textbook relation is false --------------------------------------------------
+
+   Witness = the implementation's own dump (harness `lr`) of
+       %start S  %%  S: A;  A: B C;  B: D 'e';  D: 'd';  C: C 'c';
+   tokens 'e'=0 'd'=1 'c'=2 $=3; rules ^=0 S=1 A=2 B=3 D=4 C=5; C derives no token
+   string and is not nullable, so FIRST(C $) is empty and [B -> . D 'e'] has no
+   lookahead at all in the start state; the code (and the mirror) still give
+   [D -> . 'd'] the lookahead 'e' = FIRST('e' ...), which the textbook closure
+   over single-lookahead items cannot contain. *)
+
+Definition wit_g : grammar :=
+  mkGrammar 4 6 [(1, [R 2]); (2, [R 3; R 5]); (3, [R 4; T 0]); (4, [T 1]); (5, [R 5; T 2]); (0, [R 1])]%N 5 3.
+Definition wit_nl : list N := match first_ref wit_g with Some (nl, _) => nl | None => [] end.
+Definition wit_fs : list pairN := match first_ref wit_g with Some (_, fs) => fs | None => [] end.
+Definition wit_K : itemset := [(5%N, 0, [3%N])].
+Definition wit_C : itemset :=
+  [(5%N, 0, [3%N]); (0%N, 0, [3%N]); (1%N, 0, [3%N]); (2%N, 0, []); (3%N, 0, [0%N])].
+
+Lemma wit_first : first_ref wit_g = Some (wit_nl, wit_fs).
+Proof. vm_compute. reflexivity. Qed.
+
+Lemma wit_pre : close_pre wit_g wit_nl wit_fs [(5%N, 0)] wit_K.
+Proof.
+  destruct (first_ref_exact' wit_g wit_nl wit_fs wit_first) as [Hn Hf].
+  split; [vm_compute; reflexivity|]. split; [exact Hn|]. split; [exact Hf|].
+  split; [vm_compute; reflexivity|]. intros k. simpl. tauto.
+Qed.
+
+Lemma wit_run : close_mirror wit_g wit_nl wit_fs [(5%N, 0)] wit_K (close_fuel wit_g [(5%N, 0)]) = Done wit_C.
+Proof. vm_compute. reflexivity. Qed.
+
+Definition wit_L : list (N * nat * N) := [(5%N, 0, 3%N); (0%N, 0, 3%N); (1%N, 0, 3%N)].
+
+Lemma wit_no_first_C b : ~ first_of_form wit_g [R 5%N] 3%N b.
+Proof.
+  destruct (first_ref_exact' wit_g wit_nl wit_fs wit_first) as [Hn Hf].
+  intros H. apply first_of_form_split in H. destruct H as [H | [H _]].
+  - apply (Hf 5%N b) in H. vm_compute in H.
+    repeat (destruct H as [H | H]; [discriminate H|]). exact H.
+  - apply (Hn 5%N) in H. vm_compute in H. exact H.
+Qed.
+
+Lemma wit_first_nil a b : first_of_form wit_g [] a b -> b = a.
+Proof.
+  intros H. apply first_of_form_split in H. destruct H as [(c & H) | [_ H]]; [|exact H].
+  apply derives_nil_inv in H. discriminate H.
+Qed.
+
+Lemma wit_textbook_inv p d a : lr1_textbook_rel wit_g wit_K p d a -> In (p, d, a) wit_L.
+Proof.
+  intros H. induction H as [p d la a Hin Ha | p d a r q b Hpar IH Hnth Hq Hlq Hf].
+  - destruct Hin as [Hin | []]. injection Hin as ? ? ?. subst p d la.
+    destruct Ha as [Ha | []]. subst a. left. reflexivity.
+  - apply In_pidxs in Hq. vm_compute in Hq.
+    destruct IH as [IH | [IH | [IH | []]]]; injection IH as ? ? ?; subst p d a;
+      vm_compute in Hnth; injection Hnth as Hnth; subst r;
+      destruct Hq as [Hq | [Hq | [Hq | [Hq | [Hq | [Hq | []]]]]]]; subst q;
+      vm_compute in Hlq; try discriminate Hlq.
+    + change (skipn 1 (rhs wit_g 5%N)) with (@nil sym) in Hf. apply wit_first_nil in Hf. subst b.
+      right. left. reflexivity.
+    + change (skipn 1 (rhs wit_g 0%N)) with (@nil sym) in Hf. apply wit_first_nil in Hf. subst b.
+      right. right. left. reflexivity.
+    + change (skipn 1 (rhs wit_g 1%N)) with [R 5%N] in Hf. exfalso. exact (wit_no_first_C b Hf).
+Qed.
+
+Lemma close_mirror_sound_textbook_refuted : close_mirror_sound_textbook_refuted_stmt.
+Proof.
+  exists wit_g, wit_nl, wit_fs, [(5%N, 0)], wit_K, (close_fuel wit_g [(5%N, 0)]), wit_C, 3%N, 0, [0%N], 0%N.
+  split; [exact wit_pre|]. split; [exact wit_run|]. split.
+  - intros i [Hi | []]. subst i. discriminate.
+  - split; [right; right; right; right; left; reflexivity|]. split; [left; reflexivity|].
+    intros H. apply wit_textbook_inv in H.
+    destruct H as [H | [H | [H | []]]]; discriminate H.
+Qed.
+
+(* the textbook form of statement 1 is therefore not provable *)
+Lemma close_mirror_sound_textbook_false : ~ close_mirror_sound_textbook_stmt.
+Proof.
+  intros H. destruct close_mirror_sound_textbook_refuted
+    as (g & nl & fs & keys & K & fuel & C & p & d & la & a & Hpre & Hrun & _ & Hin & Ha & Hno).
+  exact (Hno (H g nl fs keys K fuel C Hpre Hrun p d la a Hin Ha)).
+Qed.
+
+(* ---- the hypotheses are satisfiable; the mirror on the calculator grammar ----------------------------
+   (LR/Examples.v: the implementation's own dump).  Closing the start kernel
+   gives the dump's closed state 0, goto on E (rule 1) gives the dump's core
+   state 3 — as sets. *)
+From GV Require LR.Validator LR.Examples.
+
+Definition calc_nl : list N := match first_ref Examples.calc_grammar with Some (nl, _) => nl | None => [] end.
+Definition calc_fs : list pairN := match first_ref Examples.calc_grammar with Some (_, fs) => fs | None => [] end.
+
+Example calc_close_pre : close_pre Examples.calc_grammar calc_nl calc_fs [(6%N, 0)] [(6%N, 0, [5%N])].
+Proof.
+  assert (Hfr : first_ref Examples.calc_grammar = Some (calc_nl, calc_fs)) by (vm_compute; reflexivity).
+  destruct (first_ref_exact' _ _ _ Hfr) as [Hn Hf].
+  split; [vm_compute; reflexivity|]. split; [exact Hn|]. split; [exact Hf|].
+  split; [vm_compute; reflexivity|]. intros k. simpl. tauto.
+Qed.
+
+Example calc_close_start :
+  close_mirror Examples.calc_grammar calc_nl calc_fs [(6%N, 0)] [(6%N, 0, [5%N])]
+               (close_fuel Examples.calc_grammar [(6%N, 0)]) =
+  Done [(6%N, 0, [5%N]); (0%N, 0, [0%N; 5%N]); (1%N, 0, [0%N; 5%N]); (2%N, 0, [1%N; 0%N; 5%N]);
+        (3%N, 0, [1%N; 0%N; 5%N]); (4%N, 0, [1%N; 0%N; 5%N]); (5%N, 0, [1%N; 0%N; 5%N])].
+Proof. vm_compute. reflexivity. Qed.
+
+Example calc_goto_E :
+  goto_mirror Examples.calc_grammar
+    [(6%N, 0, [5%N]); (0%N, 0, [0%N; 5%N]); (1%N, 0, [0%N; 5%N]); (2%N, 0, [1%N; 0%N; 5%N]);
+     (3%N, 0, [1%N; 0%N; 5%N]); (4%N, 0, [1%N; 0%N; 5%N]); (5%N, 0, [1%N; 0%N; 5%N])] (R 1%N) =
+  Done [(6%N, 1, [5%N]); (0%N, 1, [0%N; 5%N])].
+Proof. vm_compute. reflexivity. Qed.
